@@ -28,6 +28,9 @@ pub enum Op {
     ExitChild(usize),
     KillChild(usize),
     Commit,
+    /// the in-process owner takes a checkpoint and restores it at once (same state; the
+    /// restore clears and rebuilds the directory while the instance stays open)
+    CheckpointRestore,
 }
 
 #[derive(Clone, Copy, Debug, PartialEq)]
@@ -173,6 +176,7 @@ pub fn gen_ops(seed: u64, n: usize) -> Vec<Op> {
             10 => Op::CloseChild(r.usize(2)),
             11 => Op::ExitChild(r.usize(2)),
             12 => Op::KillChild(r.usize(2)),
+            13 => Op::CheckpointRestore,
             _ => Op::Commit,
         });
     }
@@ -196,6 +200,7 @@ pub struct Stats {
     pub exits: u64,
     pub kills: u64,
     pub commits: u64,
+    pub restores: u64,
     pub transitions: BTreeSet<String>,
 }
 
@@ -391,6 +396,27 @@ pub fn run_seq(dir: &Path, ops: &[Op], st: &mut Stats) -> Option<Problem> {
                     prev = name.into();
                 }
             }
+            Op::CheckpointRestore => {
+                if let Owner::In(i) = owner {
+                    let ck = dir.with_file_name(format!("{}-ckpt", dir.file_name().unwrap().to_string_lossy()));
+                    let _ = std::fs::remove_dir_all(&ck);
+                    let t = handles[i].as_ref().unwrap();
+                    let r: Result<(), String> = (|| {
+                        let _g = rt.enter();
+                        t.create_checkpoint(&ck).map_err(|e| format!("create_checkpoint: {e}"))?;
+                        t.restore_from_checkpoint(&ck).map_err(|e| format!("restore_from_checkpoint: {e}"))?;
+                        Ok(())
+                    })();
+                    let _ = std::fs::remove_dir_all(&ck);
+                    st.restores += 1;
+                    if let Err(e) = r {
+                        problem = fail("restore_failed", e);
+                        break 'outer;
+                    }
+                    st.transitions.insert(format!("{}>checkpoint_restore", prev));
+                    prev = "checkpoint_restore".into();
+                }
+            }
             Op::Commit => {
                 let n = next_commit;
                 let r: Option<Result<(), String>> = match owner {
@@ -469,6 +495,7 @@ pub fn run(a: &Args) -> i32 {
         t.exits += st.exits;
         t.kills += st.kills;
         t.commits += st.commits;
+        t.restores += st.restores;
         t.transitions.extend(st.transitions);
         if let Some(p) = p {
             found.lock().unwrap().push((json!({"engine": "c19", "seed": seed, "ops": a.tier.pick(40, 80)}), p));
@@ -493,6 +520,7 @@ pub fn run(a: &Args) -> i32 {
     run.cov("process_exits_without_close", json!(t.exits));
     run.cov("sigkills", json!(t.kills));
     run.cov("commits", json!(t.commits));
+    run.cov("checkpoint_restores_by_the_live_owner", json!(t.restores));
     run.cov("transition_kinds_seen", json!(t.transitions));
     run.assumptions = vec![
         "openers are handles in this process (3 slots) and child processes of the same binary (2 slots) driven over pipes; background flush / compaction is switched off in all of them (manual mode) so that an idle owner does not change the directory by itself".into(),
